@@ -570,7 +570,7 @@ impl<'a, T: Send> Future for SendFuture<'a, T> {
 impl<'a, T: Send> Drop for SendFuture<'a, T> {
   fn drop(&mut self) {
     if let Some(id) = self.my_id.take() {
-      self.sender.shared.unregister_async_send(id);
+      self.sender.shared.cancel_async_send(id);
     }
   }
 }
@@ -637,7 +637,7 @@ impl<'a, T: Send> Future for BoundedSendBatchFuture<'a, T> {
 impl<'a, T: Send> Drop for BoundedSendBatchFuture<'a, T> {
   fn drop(&mut self) {
     if let Some(id) = self.my_id.take() {
-      self.sender.shared.unregister_async_send(id);
+      self.sender.shared.cancel_async_send(id);
     }
   }
 }
@@ -702,7 +702,7 @@ impl<'a, T: Send> Future for BoundedSendBatchMutFuture<'a, T> {
 impl<'a, T: Send> Drop for BoundedSendBatchMutFuture<'a, T> {
   fn drop(&mut self) {
     if let Some(id) = self.my_id.take() {
-      self.sender.shared.unregister_async_send(id);
+      self.sender.shared.cancel_async_send(id);
     }
   }
 }
